@@ -375,3 +375,169 @@ func RandomTemplateFamilyRequests(rng *rand.Rand, n int) []*Request {
 	}
 	return out
 }
+
+// ---- body shapes: what is left for the body once the URL has taken its fields ---------------------
+//
+// A POST/PUT/PATCH RPC is "body-carrying" for every generator whatever its request message looks like:
+// the Go server reads a body, the clients send one, the TS server parses one, OpenAPI declares one.
+// The family varies what is LEFT for that body: nothing at all (empty request message), nothing because
+// the path variables carry every field (one, two, three variables), nothing but query-annotated fields,
+// exactly one non-URL field, and the ordinary several-field request; for every body verb, the
+// defaulted verb, with and without a base path, with a request message that is shared with a bodiless
+// RPC, and with GET/DELETE controls of the same shapes.
+
+type bodyShape struct {
+	name   string
+	path   string   // %s = a per-RPC literal
+	fields []*Field // in declaration order
+}
+
+func bodyShapes() []bodyShape {
+	return []bodyShape{
+		{"Empty", "/%s/purge", nil},
+		{"AllPath1", "/%s/{id}/archive", []*Field{F("id", 1, "string")}},
+		{"AllPath2", "/%s/{id}/tags/{tag}", []*Field{F("id", 1, "string"), F("tag", 2, "int64")}},
+		{"AllPath3", "/%s/{a}/{b}/x/{c}", []*Field{F("c", 1, "uint32"), F("a", 2, "string"), F("b", 3, "bool")}},
+		{"PathPlusQuery", "/%s/{id}/q", []*Field{F("id", 1, "string"), F("mode", 2, "string", Query("mode", false))}},
+		{"QueryOnly", "/%s/q", []*Field{F("page", 1, "int32", Query("page", false)), F("sort", 2, "string", Query("", false))}},
+		{"OneLeft", "/%s/{id}/one", []*Field{F("id", 1, "string"), F("note", 2, "string")}},
+		{"OneLeftFirst", "/%s/{id}/first", []*Field{F("note", 1, "string"), F("id", 2, "string")}},
+		{"OneOnly", "/%s/only", []*Field{F("note", 1, "string")}},
+		{"OneMsgLeft", "/%s/{id}/msg", []*Field{F("id", 1, "string"), F("inner", 2, "", Msg("%PKG%.Inner"))}},
+		{"OneListLeft", "/%s/{id}/list", []*Field{F("id", 1, "string"), F("tags", 2, "string", Rep())}},
+		{"Several", "/%s/{id}/several", []*Field{F("id", 1, "string"), F("note", 2, "string"), F("count", 3, "int32")}},
+	}
+}
+
+func cloneField(f *Field, pkg string) *Field {
+	c := *f
+	c.TypeName = strings.ReplaceAll(c.TypeName, "%PKG%", pkg)
+	if f.Query != nil {
+		q := *f.Query
+		c.Query = &q
+	}
+	return &c
+}
+
+// BodyShapeRequests: deterministic catalogue of the family above.
+func BodyShapeRequests() []*Request {
+	var out []*Request
+	verbs := []string{"POST", "PUT", "PATCH", ""}
+	for bi, base := range []string{"/api/v1", ""} {
+		id := fmt.Sprintf("rtbody%d", bi)
+		pkg := id + ".v1"
+		f := &File{Messages: []*Message{M("Resp", F("ok", 1, "bool")), M("Inner", F("a", 1, "string"))}}
+		svc := &Service{Name: "Notes", BasePath: base, HasConfig: base != ""}
+		for vi, v := range verbs {
+			for si, sh := range bodyShapes() {
+				if bi == 1 && (vi+si)%2 == 1 {
+					continue // the base-less service takes every other combination
+				}
+				vn := v
+				if vn == "" {
+					vn = "Dflt"
+				}
+				name := lowerTitle(vn) + sh.name
+				m := &Message{Name: name + "Request"}
+				for _, fl := range sh.fields {
+					m.Fields = append(m.Fields, cloneField(fl, pkg))
+				}
+				f.Messages = append(f.Messages, m)
+				svc.Methods = append(svc.Methods, &Method{Name: name, In: pkg + "." + m.Name, Out: pkg + ".Resp", Verb: v,
+					Path: fmt.Sprintf(sh.path, strings.ToLower(name)), HasConfig: true})
+			}
+		}
+		// bodiless controls: the shapes whose fields are all URL-bound
+		for _, v := range []string{"GET", "DELETE"} {
+			for _, sh := range bodyShapes()[:6] {
+				name := lowerTitle(v) + sh.name
+				m := &Message{Name: name + "Request"}
+				for _, fl := range sh.fields {
+					m.Fields = append(m.Fields, cloneField(fl, pkg))
+				}
+				f.Messages = append(f.Messages, m)
+				svc.Methods = append(svc.Methods, &Method{Name: name, In: pkg + "." + m.Name, Out: pkg + ".Resp", Verb: v,
+					Path: fmt.Sprintf(sh.path, strings.ToLower(name)), HasConfig: true})
+			}
+		}
+		// one request message serving a bodiless and a body-carrying RPC; an empty request without any config
+		f.Messages = append(f.Messages, M("ByID", F("id", 1, "string")), M("Nothing"))
+		svc.Methods = append(svc.Methods,
+			RPC("SharedGet", pkg+".ByID", pkg+".Resp", "GET", "/shared/{id}"),
+			RPC("SharedPost", pkg+".ByID", pkg+".Resp", "POST", "/shared/{id}/restore"),
+			RPC("SharedDelete", pkg+".ByID", pkg+".Resp", "DELETE", "/shared/{id}"),
+			RPC("SharedPut", pkg+".ByID", pkg+".Resp", "PUT", "/shared/{id}"),
+			RPC("NothingPost", pkg+".Nothing", pkg+".Resp", "POST", "/nothing"),
+			RPC("NothingGet", pkg+".Nothing", pkg+".Resp", "GET", "/nothing"),
+			&Method{Name: "NothingBare", In: pkg + ".Nothing", Out: pkg + ".Resp"},
+			&Method{Name: "NothingVerbOnly", In: pkg + ".Nothing", Out: pkg + ".Resp", Verb: "PATCH", HasConfig: true})
+		f.Services = []*Service{svc}
+		r := OneFile(id, pkg, f)
+		r.Tags = []string{"routes", "body-shape"}
+		out = append(out, r)
+	}
+	return out
+}
+
+func lowerTitle(s string) string {
+	if s == "" {
+		return s
+	}
+	return strings.ToUpper(s[:1]) + strings.ToLower(s[1:])
+}
+
+// RandomBodyShapeRequests: seeded services whose RPCs draw verb, number of path variables, number of
+// query fields and number of remaining (body) fields independently, 0 included everywhere; the bound
+// fields are declared in a random order relative to the template.
+func RandomBodyShapeRequests(rng *rand.Rand, n int) []*Request {
+	var out []*Request
+	kinds := []string{"string", "int64", "uint32", "bool", "int32"}
+	for i := 0; i < n; i++ {
+		id := fmt.Sprintf("rtbodyrand%d", i)
+		pkg := id + ".v1"
+		f := &File{Messages: []*Message{M("Resp", F("ok", 1, "bool"))}}
+		base := []string{"", "/api", "/b/v2"}[rng.Intn(3)]
+		svc := &Service{Name: fmt.Sprintf("B%d", i), BasePath: base, HasConfig: base != ""}
+		nm := 4 + rng.Intn(5)
+		for j := 0; j < nm; j++ {
+			verb := []string{"POST", "PUT", "PATCH", "", "GET", "DELETE"}[rng.Intn(6)]
+			bodiless := verb == "GET" || verb == "DELETE"
+			np, nq, nb := rng.Intn(4), rng.Intn(3), rng.Intn(3)
+			if rng.Intn(2) == 0 {
+				nb = 0
+			}
+			if bodiless {
+				nb = 0
+			}
+			var fields []*Field
+			path := fmt.Sprintf("/m%d", j)
+			for k := 0; k < np; k++ {
+				fn := fmt.Sprintf("p_%d", k)
+				fields = append(fields, F(fn, 0, kinds[rng.Intn(len(kinds))]))
+				path += "/{" + fn + "}"
+				if rng.Intn(2) == 0 {
+					path += fmt.Sprintf("/l%d", k)
+				}
+			}
+			for k := 0; k < nq; k++ {
+				fn := fmt.Sprintf("q_%d", k)
+				fields = append(fields, F(fn, 0, kinds[rng.Intn(len(kinds))], Query([]string{"", "qq" + fmt.Sprint(k)}[rng.Intn(2)], false)))
+			}
+			for k := 0; k < nb; k++ {
+				fields = append(fields, F(fmt.Sprintf("b_%d", k), 0, kinds[rng.Intn(len(kinds))]))
+			}
+			rng.Shuffle(len(fields), func(a, b int) { fields[a], fields[b] = fields[b], fields[a] })
+			for k, fl := range fields {
+				fl.Number = int32(k + 1)
+			}
+			name := fmt.Sprintf("M%d", j)
+			f.Messages = append(f.Messages, &Message{Name: name + "Req", Fields: fields})
+			svc.Methods = append(svc.Methods, &Method{Name: name, In: pkg + "." + name + "Req", Out: pkg + ".Resp", Verb: verb, Path: path, HasConfig: true})
+		}
+		f.Services = []*Service{svc}
+		r := OneFile(id, pkg, f)
+		r.Tags = []string{"routes", "body-shape", "random"}
+		out = append(out, r)
+	}
+	return out
+}
